@@ -4,11 +4,10 @@ from __future__ import annotations
 import ast
 
 from sa.astx import call_attr, call_name, src, statements, walk_local
-from sa.domains import replace_chain
 from sa.effects import class_accesses
 from sa.selftest import Mutant, Silent
 from sa.source import AnalysisError, class_assigns, methods
-from sa.props._lib_i import (sect, NotPure, Raised, eval_block, guards_hold, is_self_attr, module_env, peval, words)
+from sa.props._lib_i import (sect, NotPure, Raised, class_env, eval_block, guards_hold, is_self_attr, module_env, peval, words)
 
 PROPERTY = "C40"
 INCLUDE = [("C16", ("line", "pause"), "SMTP (LineOnlyReceiver) and SMTPClient (LineReceiver) sit on the line receivers of protocols/basic.py; "
@@ -106,73 +105,88 @@ def _definitions(ctx, classes, name):
 
 # ---- writer ---------------------------------------------------------------------------------------------
 
+def _stuffing_pattern(body: bytes, delim: bytes, cut):
+    """Regex accepting exactly the transmissions of ``body`` (read in chunks of sizes ``cut``) that convert LF -> delim, change
+    no other byte, never double a '.' that is not at a line start, double every line-start '.' whose line start is visible
+    inside its chunk, and double - or (the F40 weakness) fail to double - a line-start '.' that is the first byte of a chunk."""
+    import re
+    starts = set()
+    pos = 0
+    for c in cut:
+        starts.add(pos)
+        pos += c
+    pat = b""
+    at_start = True
+    for i in range(len(body)):
+        b = body[i:i + 1]
+        if b == b"\n":
+            pat += re.escape(delim)
+            at_start = True
+        else:
+            if b == b"." and at_start:
+                pat += b"(\\.)?" if i in starts else b"\\."
+            pat += re.escape(b)
+            at_start = False
+    return re.compile(pat, re.DOTALL)
+
+
 def _check_transform(ctx, cn, f, delim_srv):
     q = f"twisted.mail.smtp.{cn}.{f.name}"
     ctx.functions.add(f"{SMTP}:{cn}.{f.name}")
     params = [a.arg for a in f.args.args]
     ctx.need(len(params) == 2, f"{q}(self, chunk)")
     chunk = params[1]
+    mod = ctx.mod(SMTP)
+    chain = [ctx.cls(SMTP, "SMTPClient")] + ([mod.find(cn)] if cn != "SMTPClient" and isinstance(mod.find(cn), ast.ClassDef) else [])
+    base_env = class_env(chain, module_env(mod))            # class-level constants (e.g. a precompiled regex) as self.<name>
     state = sorted({t.attr for st in statements(f) for t in _targets(st) if is_self_attr(t)})
-    state_read = sorted({n.attr for n in ast.walk(f) if is_self_attr(n) and isinstance(n.ctx, ast.Load) and n.attr in state})
     ignore = {c for c in (call_name(x) for x in ast.walk(f) if isinstance(x, ast.Call)) if c and c.startswith("self.") and c.count(".") == 1
-              and not any(c == "self." + s for s in state)}
+              and not any(c == "self." + s for s in state) and c not in base_env}
 
     def run(value, env_state):
-        env = dict(env_state)
+        env = dict(base_env)
+        env.update(env_state)
         env[chunk] = value
         r = eval_block(f.body, env, funcs=None, ignore=ignore)
         if not r.returned:
             raise AnalysisError(f"{q}: no value returned for chunk {value!r}")
-        return r.value, {k: v for k, v in env.items() if k.startswith("self.")}
+        return r.value, {k: env[k] for k in env if k.startswith("self.") and k[5:] in state}
 
-    # (1) K18a: multi-unit context pattern matched per chunk needs carried state
-    pairs = replace_chain(f)
-    ctx.need(pairs, f"replace chain in {q}")
-    multi = [(o, n) for o, n in pairs if isinstance(o, bytes) and len(o) > 1]
-    for o, n in multi:
-        ctx.check(bool(state_read), "chunk/stateful-context", f"{q} | <chunk-local context pattern>",
-                  f"the transformer is applied to each FileSender read chunk separately and rewrites {o!r} -> {n!r} only when the "
-                  f"whole {len(o)}-byte context lies inside one chunk, yet it keeps no state: a '.' that is the first byte of the "
-                  "message, or the first byte of a chunk that follows a line end, is sent un-stuffed (the server strips it, or takes "
-                  "a lone '.' line as end of data and reads the rest of the body as commands)")
-    # (2) semantics over a finite domain
-    bad = None
+    init = _initial_state(ctx, cn, state) if state else {}
+    over = under = None
     n_eval = 0
-    if not state:
-        for w in words(BODY_ALPHABET, 5):
-            body = b"".join(w)
-            got, _ = run(body, {})
+    for w in words(BODY_ALPHABET, 4):
+        body = b"".join(w)
+        want = _reference(body, delim_srv, line_start=True)
+        for cut in _chunkings(len(body)):
+            pattern = _stuffing_pattern(body, delim_srv, cut)
+            st = dict(init)
+            got = b""
+            pos = 0
+            for c in cut:
+                o, st = run(body[pos:pos + c], st)
+                if not isinstance(o, bytes):
+                    raise AnalysisError(f"{q}: returns {type(o).__name__} for a bytes chunk")
+                got += o
+                pos += c
             n_eval += 1
-            want = _reference(body, delim_srv, line_start=False)
-            if got != want:
-                bad = (body, got, want)
-                break
-        ctx.check(bad is None, "stuffing/writer-semantics", q,
-                  bad and f"chunk {bad[0]!r} is transformed to {bad[1]!r}; dot-stuffing with LF->CRLF conversion requires {bad[2]!r}",
-                  detail=f"{n_eval} chunks over {{'.', LF, 'a'}}^<=5 agree with the reference (leading context excluded)")
-    else:
-        init = _initial_state(ctx, cn, state)
-        for w in words(BODY_ALPHABET, 4):
-            body = b"".join(w)
-            want = _reference(body, delim_srv, line_start=True)
-            for cut in _chunkings(len(body)):
-                st = dict(init)
-                got = b""
-                pos = 0
-                for c in cut:
-                    o, st = run(body[pos:pos + c], st)
-                    got += o
-                    pos += c
-                n_eval += 1
-                if got != want:
-                    bad = (body, cut, got, want)
-                    break
-            if bad:
-                break
-        ctx.check(bad is None, "stuffing/writer-semantics", q,
-                  bad and f"body {bad[0]!r} read in chunks of sizes {bad[1]} is sent as {bad[2]!r}; required {bad[3]!r}",
-                  detail=f"{n_eval} (body, chunking) pairs agree with the stream reference")
-    return pairs
+            if got == want:
+                continue
+            if pattern.fullmatch(got):
+                under = under or (body, cut, got, want)
+            else:
+                over = over or (body, cut, got, want)
+        if over and under:
+            break
+    ctx.check(over is None, "stuffing/writer-semantics", q,
+              over and f"body {over[0]!r} read in chunks of sizes {over[1]} is sent as {over[2]!r}; required {over[3]!r}: only LF -> CRLF and doubling of a "
+              "'.' at a line start are allowed (a '.' elsewhere must not be doubled, no other byte may change)",
+              detail=f"{n_eval} (body, chunking) pairs over {{'.', LF, 'a'}}^<=4")
+    ctx.check(under is None, "chunk/stateful-context", f"{q} | <chunk-local context pattern>",
+              under and f"body {under[0]!r} read in chunks of sizes {under[1]} is sent as {under[2]!r} instead of {under[3]!r}: the transformer is applied to each "
+              "FileSender read chunk separately and only sees line starts inside the chunk, so a '.' that is the first byte of the message, or the first byte of a "
+              "chunk that follows a line end, is sent un-stuffed (the server strips it, or takes a lone '.' line as end of data and reads the rest of the body "
+              "as commands)")
 
 
 def _targets(st):
@@ -566,8 +580,12 @@ MUTANTS = [
     Mutant("stateful-repair-wrong-state", SMTP, _TC,
            '        chunk = chunk.replace(b"\\n", b"\\r\\n").replace(b"\\r\\n.", b"\\r\\n..")\n'
            '        if self._atLineStart and chunk[:1] == b".":\n            chunk = b"." + chunk\n'
-           '        self._atLineStart = chunk[-1:] == b"\\r"\n        return chunk\n',
+           '        self._atLineStart = chunk[-1:] != b"\\n"\n        return chunk\n',
            more=[(SMTP, "    ## Helpers for FileSender\n    ##\n", "    ## Helpers for FileSender\n    ##\n    _atLineStart = True\n\n")],
+           expect_rule="stuffing/writer-semantics"),
+    Mutant("regex-stuffing-anchored-at-chunk-start", SMTP, _TC,
+           '        chunk = self._lineStartDot.sub(b"..", chunk)\n        return chunk.replace(b"\\n", b"\\r\\n")\n',
+           more=[(SMTP, "    ## Helpers for FileSender\n    ##\n", "    ## Helpers for FileSender\n    ##\n    _lineStartDot = re.compile(rb\"^\\.\", re.MULTILINE)\n\n")],
            expect_rule="stuffing/writer-semantics"),
     Mutant("header-state-not-reset", SMTP, "        self.__inheader = self.__inbody = 0\n        self.sendCode(354", "        self.__inbody = 0\n        self.sendCode(354", expect_rule="do_DATA/armed-before-354"),
 ]
@@ -577,6 +595,10 @@ SILENT = [
            '        if self._atLineStart and chunk[:1] == b".":\n            chunk = b"." + chunk\n'
            '        self._atLineStart = chunk[-1:] == b"\\n"\n        return chunk\n',
            more=[(SMTP, "    ## Helpers for FileSender\n    ##\n", "    ## Helpers for FileSender\n    ##\n    _atLineStart = True\n\n")]),
+    Silent("regex-stuffing-line-start-aware-across-chunks", SMTP, _TC,
+           '        pad = b"" if self._atLineStart else b"x"\n        out = self._lineStartDot.sub(b"..", pad + chunk)[len(pad):]\n'
+           '        self._atLineStart = chunk[-1:] == b"\\n"\n        return out.replace(b"\\n", b"\\r\\n")\n',
+           more=[(SMTP, "    ## Helpers for FileSender\n    ##\n", "    ## Helpers for FileSender\n    ##\n    _lineStartDot = re.compile(rb\"^\\.\", re.MULTILINE)\n    _atLineStart = True\n\n")]),
     Silent("reader-startswith-and-inverted-test", SMTP, '        if line[:1] == b".":\n            if line == b".":\n', '        if line.startswith(b"."):\n            if not line != b".":\n'),
     Silent("stuff-then-convert", SMTP, _TC, '        return chunk.replace(b"\\n.", b"\\n..").replace(b"\\n", b"\\r\\n")\n'),
     Silent("finish-branches-swapped", SMTP, '        if lastsent != b"\\n":\n            line = b"\\r\\n."\n        else:\n            line = b"."\n',
